@@ -37,6 +37,10 @@ pub fn oracle_c03(run: &Run) -> Option<(String, String)> {
             break;
         }
         if r.end < run.sim.wire.len() {
+            if r.status == 304 && methods.get(k) != Some(&"HEAD") && !run.sim.wire[r.end..].starts_with(b"HTTP/1.") {
+                // the body of a 304 (C02's known finding body-after-304), not a new message
+                return Some(("body-after-304".into(), format!("response #{k} (304, {what}) is followed by {} body bytes", run.sim.wire.len() - r.end)));
+            }
             return Some(("bytes-after-close".into(), format!("response #{k} is {what}, yet {} more bytes were written", run.sim.wire.len() - r.end)));
         }
         if run.sim.done == "pending" && !case.cfg.dt {
